@@ -8,6 +8,7 @@ package kernel
 // any kernel goroutine running. Nothing here is compiled into normal builds.
 
 import (
+	"fmt"
 	"sort"
 	"time"
 
@@ -299,4 +300,18 @@ func (node *Node) SimQueueSelfSnapshot(hashes []crypto.Hash) error {
 		s.AddTransaction(h)
 	}
 	return node.chain.AppendSelfEmpty(s)
+}
+
+// SimBuildAccept returns the canonical node-accept transaction of a pledging
+// chain as the node itself would build it (unsigned).
+func (node *Node) SimBuildAccept(chainId crypto.Hash, ts uint64, finalized bool) (*common.VersionedTransaction, error) {
+	chain := node.getOrCreateChain(chainId)
+	if chain == nil {
+		return nil, fmt.Errorf("unknown chain %s", chainId)
+	}
+	return chain.buildNodeAcceptTransaction(ts, finalized)
+}
+
+func (node *Node) SimConsensusThresholdBase(ts uint64) int {
+	return node.ConsensusThreshold(ts, true)
 }
